@@ -63,11 +63,17 @@ func safely(f func()) (msg string) {
 }
 
 var runners = map[string]func(*H){
+	"C01": runComputeProps("C01"),
+	"C02": runComputeProps("C02"),
+	"C05": runComputeProps("C05"),
+	"C18": runComputeProps("C18"),
 	"C09": runC09,
 	"C10": runC10,
 	"C11": runC11,
 	"C08": runC08,
 	"C04": runC04,
+	"C06": runC06,
+	"C07": runC07,
 }
 
 func main() {
@@ -75,7 +81,11 @@ func main() {
 		fmt.Fprintln(os.Stderr, "usage: etharness <property> <tier> <seed> <outfile>")
 		os.Exit(2)
 	}
-	zerolog.SetGlobalLevel(zerolog.Disabled)
+	// finalizers of sparse matrices log to os.Stderr at trace level: silence them
+	if dn, err := os.OpenFile(os.DevNull, os.O_WRONLY, 0); err == nil {
+		os.Stderr = dn
+	}
+	zerolog.SetGlobalLevel(zerolog.TraceLevel)
 	prop, tier := os.Args[1], os.Args[2]
 	seed, _ := strconv.ParseInt(os.Args[3], 10, 64)
 	f, err := os.Create(os.Args[4])
